@@ -5,7 +5,7 @@ What the rewrite changes (and nothing else) -- see DESIGN.md 2.1:
   not x / a and b / a or b                              -> _dv_.not_(x) / _dv_.and_(lambda: a, ...) / _dv_.or_(...)
   a is b, is not, in, not in, ==, !=  (single comparator) -> _dv_.is_/isnot_/in_/notin_/eq_/ne_(a, b)
   len/isinstance/type/hasattr/bool/str/int/float(...)   -> _dv_.len_/isinstance_/type_/hasattr_/bool_/str_/int_/float_(...)
-  print/open/eval(...) and ET.<f>(...), re.compile(...), copy.copy/deepcopy(...) -> _dv_.ext('<name>', <callee>, ...)
+  print/open/eval(...) and ET.<f>(...), re.compile(...), copy.copy/deepcopy(...), math.<f>(...) -> _dv_.ext('<name>', <callee>, ...)
   `if T: NAME = <bool constant>` (no else)              -> NAME = _dv_.ite(T, <const>, NAME)      [if-conversion]
 A de-instrumenter inverts the rewrite; `roundtrip_ok` compares ast.dump with the original on every load.
 """
@@ -20,7 +20,7 @@ HOOK = '_dv_'
 BUILTIN_HOOKS = {'len': 'len_', 'isinstance': 'isinstance_', 'type': 'type_', 'hasattr': 'hasattr_', 'bool': 'bool_',
                  'str': 'str_', 'int': 'int_', 'float': 'float_'}
 EXT_NAMES = {'print', 'open', 'eval'}
-EXT_ATTRS = {('ET', None), ('re', 'compile'), ('copy', 'copy'), ('copy', 'deepcopy')}
+EXT_ATTRS = {('ET', None), ('re', 'compile'), ('copy', 'copy'), ('copy', 'deepcopy'), ('math', None)}
 CMP = {ast.Is: 'is_', ast.IsNot: 'isnot_', ast.In: 'in_', ast.NotIn: 'notin_', ast.Eq: 'eq_', ast.NotEq: 'ne_'}
 CMP_INV = {v: k for k, v in CMP.items()}
 
